@@ -310,9 +310,9 @@ Print Assumptions C18_value_fixed_iff_plain.
 
 (* FULL-STRENGTH CLAIM, FALSE OF THE CODE:  forall m, from_dict (norm (to_dict true m)) = Some m.
    The class of a Vector3, of JankStringyBytes, of a hippolyzer UUID, tuple vs list and a
-   bytearray are lost (the harness shows the consequence on the real code: Message.__eq__ and
-   filters such as `Foo.Bar.V == (0.0, 0.0, 0.0)` or `Foo.Bar.J == 'a'` distinguish the
-   imported entry from the logged one). *)
+   bytearray are lost by the dict / notation leg; for template-conformant messages the import
+   restores them from the template (C18_import_exact, since fix 23066bc); for a hand-built
+   message outside the template they stay lost, as here. *)
 Theorem C18_dict_classes_lost_refuted :
   wf_msg lossy_msg = true
   /\ norm_msg lossy_msg =
@@ -334,44 +334,76 @@ Theorem C18_msg_notation_roundtrip : forall (rreal rdate : N -> list N) (preal p
 Proof. exact msg_notation_roundtrip. Qed.
 Print Assumptions C18_msg_notation_roundtrip.
 
+(* _restore_value_classes (since fix 23066bc): a message whose variables have the classes the
+   deserializer gives them - per template kind [tk]: Vector3 / Vector4 / Quaternion of full
+   arity for LLVector3(d) / LLVector4 / LLQuaternion variables, JankStringyBytes for Fixed /
+   Variable variables that are not probably_binary and plain bytes for the others, hippolyzer
+   UUIDs, plain values otherwise; plain meta and acks ([deser_classes]) - comes back from
+   to_dict / notation / from_dict / restoration as ITSELF, up to extra being bytes and acks a
+   list ([flat]), and compares equal under Message.__eq__ (same short dict form).
+   The template facts [tk] are a parameter: the harness reads them off the live template for
+   every case it runs (msgtypes / probably_binary), see TRUSTED. *)
+Theorem C18_import_exact : forall (rreal rdate : N -> list N) (preal pdate : list N -> option N) (tk : tmpl),
+  (forall b rest, stopb rest = true -> scan_real (rreal b ++ rest) = Some (rreal b, rest)) ->
+  (forall b, forallb plain_byte (rdate b) = true) ->
+  forall m, wf_msg m = true -> wfn (msg_tree m) = true -> oracles_ok rreal rdate preal pdate (msg_tree m) = true ->
+  deser_classes tk m = true ->
+  bind (bind (of_notation preal pdate (notation rreal rdate (to_dict true m))) from_dict) (restore_msg tk) = Some (flat m)
+  /\ to_dict false (flat m) = to_dict false m.
+Proof. exact msg_import_exact. Qed.
+Print Assumptions C18_import_exact.
+
 (* import_log_entries(export_log_entries([e1..en])) = [e1'..en'] in order, ei' the normal form
-   of ei: the message / event normalised as above, region name, agent id, summary (now
-   cached) and meta kept (UUIDs through str() / UUID()).  LLUDP and EQ entries; hypotheses:
-   per entry C12's well-formedness of the exported tree, the three UUID-valued meta keys
-   present and holding None or a 16-byte UUID; gzip and repr / literal_eval inverse on the
-   one exported value. *)
+   of ei: the message normalised and its classes restored from the template (an event
+   normalised), region name, agent id, summary (now cached) and meta kept (UUIDs through
+   str() / UUID()).  LLUDP and EQ entries; hypotheses: per entry C12's well-formedness of the
+   exported tree, the restoration does not raise (no array longer than its coordinate class),
+   the three UUID-valued meta keys present and holding None or a 16-byte UUID; gzip and
+   repr / literal_eval inverse on the one exported value. *)
 Theorem C18_export_import : forall (rreal rdate : N -> list N) (preal pdate : list N -> option N)
-    (summ : payload -> list N) (pyrepr : yv -> list N) (pyeval : list N -> option yv)
+    (summ : payload -> list N) (tk : tmpl) (pyrepr : yv -> list N) (pyeval : list N -> option yv)
     (gz : list N -> list N) (gunz : list N -> option (list N)),
   (forall b rest, stopb rest = true -> scan_real (rreal b ++ rest) = Some (rreal b, rest)) ->
   (forall b, forallb plain_byte (rdate b) = true) ->
-  forall es, forallb (entry_ok rreal rdate preal pdate) es = true ->
+  forall es, forallb (entry_ok rreal rdate preal pdate tk) es = true ->
   exists v es',
-    export_payload rreal rdate summ es = Some v /\ mapM (norm_entry summ) es = Some es' /\ length es' = length es /\
+    export_payload rreal rdate summ es = Some v /\ mapM (norm_entry summ tk) es = Some es' /\ length es' = length es /\
     (gunz (gz (pyrepr v)) = Some (pyrepr v) -> pyeval (pyrepr v) = Some v ->
      export_log_entries rreal rdate summ pyrepr gz es = Some (gz (pyrepr v))
-     /\ import_log_entries preal pdate pyeval gunz (gz (pyrepr v)) = Some es').
+     /\ import_log_entries preal pdate tk pyeval gunz (gz (pyrepr v)) = Some es').
 Proof. exact export_import. Qed.
 Print Assumptions C18_export_import.
 
 (* for an entry whose meta is what __init__ builds (the eight keys, hippolyzer UUIDs), the
    normal form keeps the meta exactly *)
-Theorem C18_export_import_std : forall (summ : payload -> list N) e,
+Theorem C18_export_import_std : forall (summ : payload -> list N) (tk : tmpl) e,
   std_meta (le_payload e) (le_meta e) = true ->
-  norm_entry summ e = Some (mkLE (Some (region_name e)) (le_agent_id e) (Some (summary summ e)) (le_meta e)
-                                 (norm_payload (le_payload e))).
+  norm_entry summ tk e = match norm_payload tk (le_payload e) with
+                         | Some p' => Some (mkLE (Some (region_name e)) (le_agent_id e) (Some (summary summ e)) (le_meta e) p')
+                         | None => None
+                         end.
 Proof. exact norm_entry_std. Qed.
 Print Assumptions C18_export_import_std.
 
-(* ... such an entry, once imported, is standard again, satisfies the hypotheses of
-   C18_export_import again and is a fixed point: exporting and importing an imported log
-   reproduces it exactly *)
+(* HEADLINE: a standard entry around a message with the deserializer's classes - every entry
+   the proxy logs from the wire - or around an event as the llsd parsers build it comes back
+   EXACTLY: import(export e) = e with the summary cached, extra as bytes and acks as a list *)
+Theorem C18_export_import_exact : forall (summ : payload -> list N) (tk : tmpl) e,
+  std_meta (le_payload e) (le_meta e) = true -> exact_payload tk (le_payload e) = true ->
+  norm_entry summ tk e = Some (mkLE (Some (region_name e)) (le_agent_id e) (Some (summary summ e)) (le_meta e)
+                                    (flat_payload (le_payload e))).
+Proof. exact export_import_exact. Qed.
+Print Assumptions C18_export_import_exact.
+
+(* ... such an entry, once imported, is standard, exact and well formed again and a fixed
+   point: exporting and importing an imported log reproduces it *)
 Theorem C18_export_import_stable : forall (rreal rdate : N -> list N) (preal pdate : list N -> option N)
-    (summ : payload -> list N) e e',
-  entry_ok rreal rdate preal pdate e = true -> std_meta (le_payload e) (le_meta e) = true ->
-  norm_entry summ e = Some e' ->
-  entry_ok rreal rdate preal pdate e' = true /\ std_meta (le_payload e') (le_meta e') = true
-  /\ norm_entry summ e' = Some e'.
+    (summ : payload -> list N) (tk : tmpl) e e',
+  entry_ok rreal rdate preal pdate tk e = true -> std_meta (le_payload e) (le_meta e) = true ->
+  exact_payload tk (le_payload e) = true ->
+  norm_entry summ tk e = Some e' ->
+  entry_ok rreal rdate preal pdate tk e' = true /\ std_meta (le_payload e') (le_meta e') = true
+  /\ exact_payload tk (le_payload e') = true /\ norm_entry summ tk e' = Some e'.
 Proof. exact export_import_stable. Qed.
 Print Assumptions C18_export_import_stable.
 
@@ -398,17 +430,17 @@ Theorem C18_freeze_caches : forall (pk : option msg -> list N) (unpk : list N ->
 Proof. exact freeze_caches. Qed.
 Print Assumptions C18_freeze_caches.
 
-(* FULL-STRENGTH CLAIM, FALSE OF THE CODE AS IT STANDS (repickle = false): freeze is idempotent.
-   freeze() pickles self._message, which is None once frozen: after a second freeze() the
-   message property raises and so does every further freeze(). *)
-Theorem C18_freeze_twice_refuted : forall (pk : option msg -> list N) (unpk : list N -> option (option msg)) h u r,
+(* HISTORY (before fix e4edfe3, repickle = false): freeze() pickled self._message, which is
+   None once frozen: after a second freeze() the message property raised and so did every
+   further freeze().  Kept as the witness of the repaired defect; the code is repickle = true. *)
+Theorem C18_hist_freeze_twice_refuted : forall (pk : option msg -> list N) (unpk : list N -> option (option msg)) h u r,
   u_message u = Some r -> pickles pk unpk (Some (h r)) -> pickles pk unpk None ->
   exists u2, u_freeze_n false pk unpk 2 h u = Some u2 /\ u_msg unpk h u2 = None /\ u_freeze false pk unpk h u2 = None.
 Proof. exact freeze_twice_refuted. Qed.
-Print Assumptions C18_freeze_twice_refuted.
+Print Assumptions C18_hist_freeze_twice_refuted.
 
-(* with the resolved message pickled instead (repickle = true, the proposed repair) any number
-   of freezes leaves the entry thawing to the message of the first one *)
+(* HEADLINE for freeze: the code as it stands (repickle = true: the resolved message is
+   pickled) - any number of freezes leaves the entry thawing to the message of the first one *)
 Theorem C18_freeze_idempotent : forall (pk : option msg -> list N) (unpk : list N -> option (option msg)) h u r n,
   u_message u = Some r -> pickles pk unpk (Some (h r)) ->
   exists u', u_freeze_n true pk unpk (S n) h u = Some u' /\ forall h', u_msg unpk h' u' = Some (h r).
@@ -425,19 +457,21 @@ Print Assumptions C18_frozen_export.
 
 (* ---- non-vacuity ---- *)
 
-(* a message with a Vector3, stringy bytes, a UUID, a str with quote and newline, a tuple
+(* a message with a Vector3, stringy bytes, a UUID, a str with quote and newline, a list
    holding None, a present-but-empty block list, bytearray extra, acks; an LLUDP and an EQ
    entry with standard meta: all hypotheses of C18_export_import hold *)
 Example C18_ex_export_hyps :
   (forall b rest, stopb rest = true -> scan_real (ex_rreal b ++ rest) = Some (ex_rreal b, rest))
   /\ (forall b, forallb plain_byte (ex_rdate b) = true)
-  /\ wf_msg ex_msg = true /\ plain_msg ex_msg = false
-  /\ forallb (entry_ok ex_rreal ex_rdate ex_preal ex_pdate) [ex_entry; ex_eq_entry] = true
+  /\ wf_msg ex_msg = true /\ plain_msg ex_msg = false /\ deser_classes ex_tk ex_msg = true
+  /\ forallb (entry_ok ex_rreal ex_rdate ex_preal ex_pdate ex_tk) [ex_entry; ex_eq_entry] = true
   /\ std_meta (le_payload ex_entry) (le_meta ex_entry) = true
   /\ std_meta (le_payload ex_eq_entry) (le_meta ex_eq_entry) = true.
 Proof. split; [exact ex_real_scan|]. split; [exact ex_date_plain|]. exact ex_entries_ok. Qed.
 
-(* ... and its conclusion, with repr / literal_eval instantiated by a genuine serialisation *)
+(* ... and its conclusion, with repr / literal_eval instantiated by a genuine serialisation:
+   the LLUDP entry comes back with its Vector3, stringy bytes and UUID (same block lists), and
+   would not without the template facts *)
 Example C18_ex_export_import :
   let pyrepr := notation ex_rreal ex_rdate in
   let pyeval := of_notation ex_preal ex_pdate in
@@ -446,9 +480,11 @@ Example C18_ex_export_import :
   export_payload ex_rreal ex_rdate ex_summ [ex_entry; ex_eq_entry] = Some ex_payload
   /\ gunz (gz (pyrepr ex_payload)) = Some (pyrepr ex_payload) /\ pyeval (pyrepr ex_payload) = Some ex_payload
   /\ bind (export_log_entries ex_rreal ex_rdate ex_summ pyrepr gz [ex_entry; ex_eq_entry])
-          (import_log_entries ex_preal ex_pdate pyeval gunz)
-     = Some [mkLE (Some [82]) (Some ex_uuid) (Some [115; 117; 109]) (ex_meta K_LLUDP K_IN) (PUdp (norm_msg ex_msg));
-             mkLE (Some []) None (Some [115]) (ex_meta K_EQ []) (le_payload ex_eq_entry)].
+          (import_log_entries ex_preal ex_pdate ex_tk pyeval gunz)
+     = Some [mkLE (Some [82]) (Some ex_uuid) (Some [115; 117; 109]) (ex_meta K_LLUDP K_IN) (PUdp (flat ex_msg));
+             mkLE (Some []) None (Some [115]) (ex_meta K_EQ []) (le_payload ex_eq_entry)]
+  /\ m_blocks (flat ex_msg) = m_blocks ex_msg
+  /\ restore_msg (fun _ _ _ => None) (norm_msg ex_msg) <> Some (flat ex_msg).
 Proof. exact ex_export_import. Qed.
 
 Example C18_ex_freeze :
